@@ -31,6 +31,7 @@ def c16(tier):
     for c in chains:
         jobs.append(Job("h_c04::array_chain", c, dict(S2), budget_s=3000, validate=30))
     jobs.append(Job("h_c04::observer_chain", (7, 2) if tier == "quick" else (7, 3), dict(S2), budget_s=3000, validate=20))
+    jobs.append(Job("h_hist::cold_reader_travel", (1,), dict(S2), budget_s=600, validate=10))
     return dict(
         jobs=jobs,
         bounds={"len_old": "0..%d" % n, "len_new": "0..%d" % n, "elements": "abstract atoms, repetitions allowed (all equality patterns)",
@@ -292,6 +293,9 @@ def c14(tier):
     combos = [(4, 0)] if tier == "quick" else [(4, 0), (4, 1), (8, 0)]
     jobs = [Job("h_hist::time_travel", c, dict(S2), budget_s=3000, validate=30) for c in combos]
     jobs.append(Job("h_hist::time_travel_rounds", (2 if tier == "quick" else 4,), dict(S2), budget_s=3000, validate=5))
+    # a reader opened cold on a chain of 5 array versions travels to two earlier points in a row (default / symbolic cache capacities)
+    jobs.append(Job("h_hist::cold_reader_travel", (0,), dict(S2), budget_s=600, validate=10))
+    jobs.append(Job("h_hist::cold_reader_travel", (1,), dict(S2), budget_s=600, validate=10))
     return dict(jobs=jobs, bounds={"history": "as C13 (5 blocks, one concurrent pair, one merge commit); every head set replica a ever had (single heads and the two-head set after the merge) is travelled to",
                                    "combos [k, symbolic values]": [list(c) for c in combos]},
                 assumptions=S2_ASSUME, note="melda.rs reload_until / new_until / reload / get_value / get_parent_revision from MIR")
